@@ -60,6 +60,8 @@ type api struct {
 // documents, seeds, completions), not on the whole (state, byte, continuation) cover
 func extraAPI(a *api) bool { return a.mk != nil || strings.Contains(a.name, "+Mongo") }
 
+var quickTier = false
+
 func noData(jp.Expr, any) {}
 
 var matchPaths = []jp.Expr{jp.MustParseString("$.a"), jp.MustParseString("$..b[1]"), jp.MustParseString("$[0][*]")}
@@ -98,7 +100,8 @@ func apis() []api {
 		{"sen.Parser.Parse", "sen", false, false, func(b []byte) error { p := sen.Parser{}; _, err := p.Parse(b); return err }, nil},
 		{"sen.Parser.ParseReader", "sen", false, true, func(b []byte) error { p := sen.Parser{}; _, err := p.ParseReader(bytes.NewReader(b)); return err }, nil},
 		{"sen.Parser.ParseReader@1", "sen", false, true, func(b []byte) error { p := sen.Parser{}; _, err := p.ParseReader(plib.Chunked(b, "1")); return err }, nil},
-		{"sen.Tokenizer.Parse", "sen", false, false, func(b []byte) error { t := sen.Tokenizer{}; return t.Parse(b, z) }, nil},
+		// (a fresh sen.Tokenizer costs ~22 us to set up: in the quick tier it runs on the continuation-free inputs only)
+		{"sen.Tokenizer.Parse", "sen", false, quickTier, func(b []byte) error { t := sen.Tokenizer{}; return t.Parse(b, z) }, nil},
 		{"sen.Tokenizer.Load@1", "sen", false, true, func(b []byte) error { t := sen.Tokenizer{}; return t.Load(plib.Chunked(b, "1"), z) }, nil},
 		{"sen.Parser.Unmarshal(any)", "sen", false, true, func(b []byte) error { p := sen.Parser{}; var v any; return p.Unmarshal(b, &v) }, nil},
 		{"sen.Parser.Unmarshal(struct)", "sen", false, true, func(b []byte) error { p := sen.Parser{}; var v tgt; return p.Unmarshal(b, &v) }, nil},
@@ -498,6 +501,7 @@ func runAll(args []string) {
 	if dn, err := os.OpenFile(os.DevNull, os.O_WRONLY, 0); err == nil {
 		os.Stdout = dn
 	}
+	quickTier = *tier != "thorough"
 	rn := &runner{apis: apis(), agg: map[string]*counts{}, fails: map[string]*failure{}}
 	nw := runtime.NumCPU()
 	if nw > 12 {
